@@ -891,7 +891,7 @@ scpi_bool_t SCPI_ParamToUInt64(scpi_t * context, scpi_parameter_t * parameter, u
  */
 scpi_bool_t SCPI_ParamToFloat(scpi_t * context, scpi_parameter_t * parameter, float * value) {
     scpi_bool_t result;
-    uint32_t valint;
+    uint64_t valint;
 
     if (!value) {
         SCPI_ErrorPush(context, SCPI_ERROR_SYSTEM_ERROR);
@@ -902,7 +902,7 @@ scpi_bool_t SCPI_ParamToFloat(scpi_t * context, scpi_parameter_t * parameter, fl
         case SCPI_TOKEN_HEXNUM:
         case SCPI_TOKEN_OCTNUM:
         case SCPI_TOKEN_BINNUM:
-            result = SCPI_ParamToUInt32(context, parameter, &valint);
+            result = SCPI_ParamToUInt64(context, parameter, &valint);
             *value = valint;
             break;
         case SCPI_TOKEN_DECIMAL_NUMERIC_PROGRAM_DATA:
